@@ -305,6 +305,7 @@ func runC04Batch(c *Cfg) {
 func runC04(c *Cfg) {
 	r := c.Rep
 	defer runC04Batch(c)
+	runSpecial(c, "C04", "embedded-flow-rescued-by-fallback")
 	// flows with a retry budget of their own, nested: a failure that a later attempt of the flow recovers is not the
 	// run's outcome; one that no attempt recovers is, with the callback's own error
 	// very long runs (up to 22650 visits): a run in which no callback fails succeeds however long it is, and a callback
